@@ -13,11 +13,12 @@ theorem ringArea_A (r : Ring) : absR (goCyc shoeF r / 2) = Spec.measure r := by
   · rw [abs_of_nonpos h, abs_of_nonpos (by linarith)]; ring
 
 theorem firstDecisive_of {others : Poly} {r : Ring} (hne : r ≠ []) {s : Side} (hs : s ≠ .onEdge)
-    (h : ∀ v ∈ r, pip v others = s) : firstDecisive others r = some s := by
+    (h : ∀ v ∈ r, pip v others = s) (l : List P) : firstDecisive others (r ++ l) = some s := by
   cases r with
   | nil => exact absurd rfl hne
   | cons v t =>
     have hv := h v (by simp)
+    rw [List.cons_append]
     unfold firstDecisive
     rw [hv]
     cases s <;> simp_all
